@@ -110,6 +110,84 @@ void ProtoRun::filter_record(Record &r, std::vector<Bytes> &out) {
                 u.tampered = true; u.kind = byte < hdr ? "flip_header_" + std::to_string(byte) : "flip_body";
                 u.is_mod = is_mod && !(byte == len_off || byte == len_off + 1);
             }
+        } else if (a.kind == "setword" || a.kind == "setbyte" || a.kind == "set3") {
+            // structure-blind field edit inside the record body: overwrite 1/2/3 bytes at an offset with a boundary value
+            static const uint32_t VALS[] = { 0, 1, 2, 0x7f, 0x80, 0xff, 0x100, 0x3fff, 0x4000, 0x4001, 0x7fff, 0x8000, 0xffff, 0xfffe, 0x10000, 0xffffff };
+            size_t w = a.kind == "setbyte" ? 1 : a.kind == "setword" ? 2 : 3;
+            if (blen >= w) {
+                size_t off = hdr + (size_t) ((uint64_t) a.a % (blen - w + 1));
+                uint32_t v = VALS[(uint64_t) a.b % (sizeof VALS / sizeof VALS[0])];
+                if (((uint64_t) a.b >> 8) % 3 == 1) { uint32_t cur = 0; for (size_t i = 0; i < w; i++) { cur = cur << 8 | u.b[off + i]; } v = cur + 1; }
+                if (((uint64_t) a.b >> 8) % 3 == 2) { uint32_t cur = 0; for (size_t i = 0; i < w; i++) { cur = cur << 8 | u.b[off + i]; } v = cur ? cur - 1 : 0xffffff; }
+                for (size_t i = 0; i < w; i++) { u.b[off + i] = (unsigned char) (v >> (8 * (w - 1 - i))); }
+                u.tampered = true; u.kind = a.kind; u.is_mod = is_mod;
+            }
+        } else if (a.kind == "hsfield") {
+            // handshake header fields of a plaintext handshake record: length (1..3), DTLS: msg_seq (4..5), frag_offset (6..8), frag_length (9..11)
+            static const uint32_t VALS[] = { 0, 1, 0xff, 0x100, 0x3fff, 0x4000, 0xffff, 0x10000, 0xea60, 0xffffff };
+            size_t hh = pc.dtls() ? 12 : 4;
+            if (r.type == 22 && blen >= hh) {
+                size_t fo; size_t w = 3;
+                switch ((uint64_t) a.a % (pc.dtls() ? 4 : 1)) { case 1: fo = 4; w = 2; break; case 2: fo = 6; break; case 3: fo = 9; break; default: fo = 1; break; }
+                uint32_t cur = 0; for (size_t i = 0; i < w; i++) { cur = cur << 8 | u.b[hdr + fo + i]; }
+                uint32_t v;
+                switch (((uint64_t) a.b >> 8) % 4) { case 0: v = cur + 1; break; case 1: v = cur ? cur - 1 : 0xffff; break; case 2: v = cur + (uint32_t) blen; break; default: v = VALS[(uint64_t) a.b % (sizeof VALS / sizeof VALS[0])]; break; }
+                for (size_t i = 0; i < w; i++) { u.b[hdr + fo + i] = (unsigned char) (v >> (8 * (w - 1 - i))); }
+                u.tampered = true; u.kind = "hsfield_" + std::to_string(fo); u.is_mod = is_mod;
+            }
+        } else if (a.kind == "grow" || a.kind == "shrink") {
+            // structure-aware resize of a plaintext handshake message: add (or remove) N bytes at the end and keep every enclosing length field
+            // consistent - record length, handshake length, DTLS fragment length, and every 1/2/3-byte vector length inside the body whose
+            // vector runs exactly to the end of the message (generic TLS-vector walk)
+            size_t hh = pc.dtls() ? 12 : 4;
+            bool plain_hs = r.type == 22 && blen >= hh && !ccs_emitted[dir] && (!pc.dtls() || r.epoch == 0);
+            if (plain_hs) {
+                size_t hslen = (size_t) u.b[hdr + 1] << 16 | (size_t) u.b[hdr + 2] << 8 | u.b[hdr + 3];
+                bool whole = hslen + hh == blen;     // one complete, unfragmented message in this record
+                size_t n = 1 + (size_t) ((uint64_t) a.a % 200);
+                bool grow = a.kind == "grow";
+                if (!grow && n > hslen) { n = hslen; }
+                if (whole && n > 0) {
+                    size_t body0 = hdr + hh, bend = u.b.size();
+                    auto adj = [&](size_t off, size_t w) {
+                        size_t v = 0; for (size_t i = 0; i < w; i++) { v = v << 8 | u.b[off + i]; }
+                        v = grow ? v + n : v - n;
+                        for (size_t i = 0; i < w; i++) { u.b[off + i] = (unsigned char) (v >> (8 * (w - 1 - i))); }
+                    };
+                    // inner trailing vectors first (outermost..innermost all end at the message end); which ones to touch is seeded: all, or all but the innermost k
+                    std::vector<std::pair<size_t, size_t> > vecs;
+                    for (size_t off = body0; off + 1 <= bend; off++) {
+                        for (size_t w = 1; w <= 3; w++) {
+                            if (off + w > bend) { continue; }
+                            size_t v = 0; for (size_t i = 0; i < w; i++) { v = v << 8 | u.b[off + i]; }
+                            if (v == bend - (off + w) && v > 0 && (grow || v >= n)) { vecs.push_back({ off, w }); off += w - 1; break; }   // the low bytes of a length field are not length fields themselves
+                        }
+                    }
+                    size_t keep = vecs.size(); size_t skip_inner = (size_t) ((uint64_t) a.b % 4 == 3 ? 1 : 0);
+                    if (skip_inner && keep) { keep--; }
+                    for (size_t i = 0; i < keep; i++) { adj(vecs[i].first, vecs[i].second); }
+                    adj(hdr + 1, 3);
+                    if (pc.dtls()) { adj(hdr + 9, 3); }
+                    if (grow) { Rng g((uint64_t) a.b + 29); for (size_t i = 0; i < n; i++) { u.b.push_back((unsigned char) g.next()); } }
+                    else { u.b.resize(u.b.size() - n); }
+                    size_t nl = u.b.size() - hdr; size_t lo = pc.dtls() ? 11 : 3;
+                    u.b[lo] = (unsigned char) (nl >> 8); u.b[lo + 1] = (unsigned char) nl;
+                    u.tampered = true; u.kind = a.kind; u.is_mod = is_mod;
+                    obs.counters[std::string("fault.") + a.kind + "_applied"]++;
+                }
+            }
+        } else if (a.kind == "refrag") {
+            // split a plaintext TLS handshake record into two records at a seeded offset (legal: handshake messages may span records)
+            if (!pc.dtls() && r.type == 22 && blen >= 2 && !ccs_emitted[dir]) {
+                size_t cut = 1 + (size_t) ((uint64_t) a.a % (blen - 1));
+                Unit u1, u2;
+                u1.b.assign(u.b.begin(), u.b.begin() + (long) hdr + (long) cut); u1.b[3] = (unsigned char) (cut >> 8); u1.b[4] = (unsigned char) cut;
+                u2.b.assign(u.b.begin(), u.b.begin() + (long) hdr); u2.b.insert(u2.b.end(), u.b.begin() + (long) hdr + (long) cut, u.b.end());
+                size_t rest = blen - cut; u2.b[3] = (unsigned char) (rest >> 8); u2.b[4] = (unsigned char) rest;
+                u1.tampered = u2.tampered = true; u1.kind = u2.kind = "refrag"; u1.is_mod = u2.is_mod = false;
+                g_q[dir].push_back(u1); g_q[dir].push_back(u2);
+                return;
+            }
         } else if (a.kind == "trunc") {
             size_t cut = blen ? 1 + (size_t) ((uint64_t) a.a % blen) : 0;
             u.b.resize(u.b.size() - cut);
@@ -198,7 +276,17 @@ void ProtoRun::hand_to_receiver(int dir, const Bytes &unit, bool tampered_in, co
             obs.fatal_alert_given[role] = true; obs.fatal_alert_desc[role] = unit[hdr + 1];
         }
     }
-    rcv.feed(unit.data(), unit.size());
+    if (split && !pc.dtls() && unit.size() > 1) {
+        // stream re-chunking: the same bytes in 2..4 pieces at seeded offsets (a legal transport behaviour)
+        size_t off = 0; int pieces = 1 + split;
+        for (int i = 0; i < pieces && off < unit.size() && rcv.alive(); i++) {
+            size_t n = i == pieces - 1 ? unit.size() - off : 1 + (size_t) opr.below(unit.size() - off);
+            rcv.feed(unit.data() + off, n); off += n;
+        }
+        obs.counters["net.rechunked"]++;
+    } else {
+        rcv.feed(unit.data(), unit.size());
+    }
     if (tampered) { obs.tamper_consumed[dir] = true; }
     if (was_dead) {
         if (rcv.delivered.size() > before) { obs.appdata_after_death[role] += (int) (rcv.delivered.size() - before); }
@@ -377,6 +465,10 @@ void ProtoRun::do_op(const Op &op) {
         if (e.alive()) { e.app_close(); after_event(); w.collect(DIR_C2S); w.collect(DIR_S2C); }
     } else if (op.k == "advance") {
         vsim_clock_advance_ms(op.a);
+    } else if (op.k == "ptmut") {
+        // byzantine sender (direction's sender): edit the plaintext of its nth next AEAD seal
+        vsim_pt_mutate(w.ep(dir).node, (int) (op.b % 8), op.c, (int) (1 + op.d % 3), (int) ((op.d >> 2) & 3), (uint32_t) ((op.d >> 4) & 0xffffff));
+        obs.counters["fault.ptmut_armed"]++;
     }
 }
 
@@ -384,6 +476,8 @@ void ProtoRun::run() {
     std::deque<Unit> q[2];
     g_q = q;
     vsim_probe_set(probe_cb, this);
+    vsim_set_node(NODE_HARNESS);
+    matrixDtlsSetPmtu((int) plan.get("pmtu", 1500));   // process-global in the library: every run states it
     if (!w.setup(pc)) { setup_failed = true; setup_detail = "key setup rc=" + std::to_string(w.setup_rc); g_q = nullptr; return; }
     w.filter = [this](Record &r, std::vector<Bytes> &out) { filter_record(r, out); };
     // sibling session (same cfg, other keys) for cross-session injection, and - when resumption is asked for - the
@@ -400,6 +494,17 @@ void ProtoRun::run() {
             w.cli->app_send(a.data(), a.size()); w.srv->app_send(b.data(), b.size());
             deliver_all();
             if (plan.get("resume")) { w.cli->app_close(); deliver_all(); }
+            if (plan.get("rotate") && pc.tickets) {
+                // the server's ticket key is rotated between the connections: the held ticket no longer decrypts, the next handshake is a full one that re-issues a ticket
+                unsigned char name[16], sym[32], mac[32];
+                vsim_set_node(NODE_SERVER);
+                ticket_key_material(pc.ticket_key_id, name, sym, mac);
+                int rc1 = matrixSslDeleteSessionTicketKey(w.skeys, name);
+                ticket_key_material(pc.ticket_key_id + 1, name, sym, mac);
+                int rc2 = matrixSslLoadSessionTicketKeys(w.skeys, name, sym, 32, mac, 32);
+                obs.counters[rc1 >= 0 && rc2 >= 0 ? "ticket_key_rotated" : "ticket_key_rotate_failed"]++;
+                vsim_set_node(NODE_HARNESS);
+            }
         }
         for (int d = 0; d < 2; d++) { sibling[d] = w.captured[d]; q[d].clear(); }
         obs.counters[ok ? "sibling_ok" : "sibling_failed"]++;
@@ -411,6 +516,8 @@ void ProtoRun::run() {
     armed[0].on = armed[1].on = false; pending_gap[0] = pending_gap[1] = false; swap_pending[0] = swap_pending[1] = false;
     next_honest[0] = next_honest[1] = 0; ccs_emitted[0] = ccs_emitted[1] = false;
     if (!w.connect(plan.get("resume") != 0)) { setup_failed = true; setup_detail = "connect failed cli=" + std::to_string(w.cli ? w.cli->create_rc : 0) + " srv=" + std::to_string(w.srv ? w.srv->create_rc : 0); g_q = nullptr; return; }
+    if (on_api) { w.cli->on_api = on_api; w.srv->on_api = on_api; }
+    split = (int) plan.get("split");
     audit.sessions.clear();
     audit.add_session(w.cli->ssl, vsim_sizeof_ssl(), w.cli->node, pc.dtls()); audit.add_session(w.srv->ssl, vsim_sizeof_ssl(), w.srv->node, pc.dtls());
     for (auto &op : plan.ops) { do_op(op); }
